@@ -252,3 +252,186 @@ pub fn program(rng: &mut Rng, profile: Profile) -> Generated {
     let _ = gen::ARITH;
     Generated { stmts, mem, cycles, tags, order }
 }
+
+fn assigned_names(g: &Generated) -> Vec<String> {
+    let mut v = Vec::new();
+    for s in &g.stmts { if let Stmt::Assign(ns, _) = s { for n in ns { v.push(n.clone()); } } }
+    v
+}
+
+fn bank_outputs(g: &Generated) -> Vec<String> {
+    let mut v = Vec::new();
+    for s in &g.stmts { if let Stmt::Bank(n, regs) = s { let o = n.chars().nth(1).unwrap(); for r in regs { v.push(format!("{}_{}", o, r.0)); } } }
+    v
+}
+
+/// introduce one name fault; returns (fault class, name concerned)
+pub fn inject_fault(rng: &mut Rng, g: &mut Generated) -> (&'static str, String) {
+    let assigned = assigned_names(g);
+    let wires: Vec<(String, u8)> = g.stmts.iter().filter_map(|s| if let Stmt::Wire(n, w) = s { Some((n.clone(), *w)) } else { None }).collect();
+    let outs = bank_outputs(g);
+    let consts: Vec<String> = g.stmts.iter().filter_map(|s| if let Stmt::Const(n, _) = s { Some(n.clone()) } else { None }).collect();
+    let at = rng.below(g.stmts.len() as u64 + 1) as usize;
+    let one = GExpr::Const(1, W::Unl, 0);
+    match rng.below(14) {
+        0 | 1 => {
+            // drop the assignment of one name
+            let victim = rng.pick(&assigned).clone();
+            let mut done = false;
+            for s in g.stmts.iter_mut() {
+                if let Stmt::Assign(ns, _) = s {
+                    if !done && ns.contains(&victim) {
+                        if ns.len() == 1 { *s = Stmt::Raw(String::new()); } else { ns.retain(|x| *x != victim); }
+                        done = true;
+                    }
+                }
+            }
+            ("unassigned", victim)
+        }
+        2 => {
+            let victim = rng.pick(&assigned).clone();
+            g.stmts.insert(at, Stmt::Assign(vec![victim.clone()], one));
+            ("assigned-twice", victim)
+        }
+        3 => {
+            if wires.is_empty() { g.stmts.insert(at, Stmt::Raw("wire pc:64;".into())); return ("redeclared", "pc".into()); }
+            let (n, w) = rng.pick(&wires).clone();
+            g.stmts.insert(at, Stmt::Wire(n.clone(), if rng.chance(1, 2) { w } else { 8 }));
+            ("redeclared", n)
+        }
+        4 => {
+            // declare a wire under a name that already means something else
+            let mut pool: Vec<String> = vec!["pc".into(), "Stat".into(), "i10bytes".into(), "mem_addr".into(), "reg_outputA".into(),
+                                             "STAT_AOK".into(), "REG_RSP".into(), "true".into(), "C_n".into(), "c_n".into(), "stall_C".into(), "bubble_C".into()];
+            pool.extend(outs.iter().cloned());
+            pool.extend(consts.iter().cloned());
+            let n = rng.pick(&pool).clone();
+            g.stmts.insert(at, Stmt::Raw(format!("wire {}:8;", n)));
+            ("redeclared-other", n)
+        }
+        5 => {
+            // a constant under a name already taken
+            let mut pool: Vec<String> = vec!["pc".into(), "STAT_HLT".into(), "C_n".into(), "c_n".into(), "mem_output".into()];
+            pool.extend(wires.iter().map(|x| x.0.clone()));
+            let n = rng.pick(&pool).clone();
+            g.stmts.insert(at, Stmt::Raw(format!("const {} = 3;", n)));
+            ("redeclared-const", n)
+        }
+        6 => {
+            let mut pool: Vec<String> = vec!["i10bytes".into(), "mem_output".into(), "reg_outputA".into(), "reg_outputB".into(), "C_n".into(),
+                                             "STAT_AOK".into(), "true".into(), "REG_NONE".into(), "NOP".into()];
+            pool.extend(outs.iter().cloned());
+            pool.extend(consts.iter().cloned());
+            let n = rng.pick(&pool).clone();
+            g.stmts.insert(at, Stmt::Assign(vec![n.clone()], one));
+            ("assigned-driven", n)
+        }
+        7 => {
+            let n = format!("undecl{}", rng.below(100));
+            g.stmts.insert(at, Stmt::Raw(format!("wire zz9:8; zz9 = {} + 1;", n)));
+            ("read-undeclared", n)
+        }
+        8 => {
+            let n = format!("ghost{}", rng.below(100));
+            g.stmts.insert(at, Stmt::Assign(vec![n.clone()], one));
+            ("assigned-undeclared", n)
+        }
+        9 => {
+            let mut pool: Vec<String> = vec!["C_n".into(), "c_n".into(), "pc".into(), "Stat".into()];
+            pool.extend(wires.iter().map(|x| x.0.clone()));
+            let n = rng.pick(&pool).clone();
+            g.stmts.insert(at, Stmt::Raw(format!("const KW9 = {} + 1;", n)));
+            ("const-reads-wire", n)
+        }
+        10 => {
+            let mut pool: Vec<String> = vec!["C_n".into(), "pc".into()];
+            pool.extend(wires.iter().map(|x| x.0.clone()));
+            let n = rng.pick(&pool).clone();
+            g.stmts.insert(at, Stmt::Raw(format!("register zQ {{ k:8 = {}; }} z_k = 1;", n)));
+            ("default-reads-wire", n)
+        }
+        11 => {
+            let bad = rng.pick(&["Xy", "abc", "x", "xy", "XY", "x1", "_X"]).to_string();
+            g.stmts.insert(at, Stmt::Raw(format!("register {} {{ k:8 = 0; }}", bad)));
+            ("bad-bank-name", bad)
+        }
+        12 => {
+            // component given some but not all of its inputs
+            let (stmt, n) = match rng.below(4) {
+                0 => ("reg_dstE = 3;", "reg_inputE"),
+                1 => ("reg_inputM = 7;", "reg_dstM"),
+                2 => ("mem_input = 9;", "mem_addr"),
+                _ => ("mem_readbit = 1;", "mem_addr"),
+            };
+            if assigned.iter().any(|a| stmt.starts_with(a.as_str())) { g.stmts.insert(at, Stmt::Raw(String::new())); return ("none", "-".into()); }
+            g.stmts.insert(at, Stmt::Raw(stmt.into()));
+            ("partial", n.into())
+        }
+        _ => {
+            // read an output of a component that has no inputs
+            let (out, inp) = *rng.pick(&[("reg_outputB", "reg_srcB"), ("mem_output", "mem_addr"), ("reg_outputA", "reg_srcA")]);
+            if assigned.iter().any(|a| a == inp) { g.stmts.insert(at, Stmt::Raw(String::new())); return ("none", "-".into()); }
+            g.stmts.insert(at, Stmt::Raw(format!("wire zz8:64; zz8 = {};", out)));
+            ("needs-input", inp.into())
+        }
+    }
+}
+
+/// try to close a dependency loop (the result may or may not be cyclic: the specification decides)
+pub fn inject_loop(rng: &mut Rng, g: &mut Generated) -> (&'static str, String) {
+    let at = rng.below(g.stmts.len() as u64 + 1) as usize;
+    let assigned = assigned_names(g);
+    match rng.below(8) {
+        0 => { g.stmts.insert(at, Stmt::Raw("wire la:8; la = la + 1;".into())); ("self-loop", "la".into()) }
+        1 => { g.stmts.insert(at, Stmt::Raw("wire la:8, lb:8; la = lb ^ 1; lb = [la == 0 : 3; 1 : la];".into())); ("two-loop", "la".into()) }
+        2 => { g.stmts.insert(at, Stmt::Raw("wire la:8, lb:8, lc:1; la = lb; lb = (lc .. la[0..7]); lc = la in { 1, 2 };".into())); ("three-loop", "la".into()) }
+        3 => { g.stmts.insert(at, Stmt::Raw("const LK1 = LK2 + 1, LK2 = LK1;".into())); ("const-loop", "LK1".into()) }
+        4 => {
+            // through a register bank: not a loop
+            g.stmts.insert(at, Stmt::Raw("register zQ { k:8 = 0; } z_k = Q_k + 1;".into())); ("through-bank", "z_k".into())
+        }
+        5 => {
+            // through a built-in component, if its input is assigned here: wrap the existing assignment
+            let (inp, out) = *rng.pick(&[("mem_addr", "mem_output"), ("pc", "i10bytes[0..64]"), ("reg_srcA", "reg_outputA[0..4]"), ("mem_readbit", "mem_output[0..1]")]);
+            let mut name = String::from("-");
+            for s in g.stmts.iter_mut() {
+                if let Stmt::Assign(ns, e) = s {
+                    if ns.len() == 1 && ns[0] == inp {
+                        let old = render(e);
+                        *s = Stmt::Raw(format!("{} = ({}) ^ {};", inp, old, out));
+                        name = inp.to_string();
+                        break;
+                    }
+                }
+            }
+            ("through-component", name)
+        }
+        6 => {
+            // write side of the register file / memory: not a loop
+            if assigned.iter().any(|a| a == "reg_inputE") || !assigned.iter().any(|a| a == "reg_srcA") {
+                g.stmts.insert(at, Stmt::Raw(String::new())); return ("none", "-".into());
+            }
+            g.stmts.insert(at, Stmt::Raw("reg_inputE = reg_outputA + 1; reg_dstE = reg_srcA;".into())); ("through-write-port", "reg_inputE".into())
+        }
+        _ => {
+            // back edge from a late wire to an early one
+            if g.order.len() < 2 { g.stmts.insert(at, Stmt::Raw(String::new())); return ("none", "-".into()); }
+            let i = rng.below(g.order.len() as u64 - 1) as usize;
+            let j = rng.range(i as u64 + 1, g.order.len() as u64 - 1) as usize;
+            let early = g.order[i].0.clone();
+            let late = g.order[j].0.clone();
+            let mut name = String::from("-");
+            for s in g.stmts.iter_mut() {
+                if let Stmt::Assign(ns, e) = s {
+                    if ns.len() == 1 && ns[0] == early {
+                        let old = render(e);
+                        *s = Stmt::Raw(format!("{} = [ {} == {} : {}; 1 : {} ];", early, late, late, old, old));
+                        name = early.clone();
+                        break;
+                    }
+                }
+            }
+            ("back-edge", name)
+        }
+    }
+}
